@@ -159,7 +159,8 @@ fn plan(p: &mut Plan<'_>) {
         }
         "C19" => {
             p.part(netsim::NetSim { mode: netsim::Mode::C19 }, 1000, 100_000, "whole-stack runs in which both applications send unreliable datagrams of sizes around the peer's max_datagram_frame_size (0 = disabled, 1, 2, 100, 1200, 65535) under loss or loss-free; refusal rule, payload integrity (no merge/alter), order among delivered, and on loss-free uncongested runs every accepted datagram must reach the peer; non-trivial = datagrams were accepted; distinct = trace hash");
-            p.assumptions = vec!["RFC 9221: max_datagram_frame_size bounds the whole frame, the smallest encoding of a payload of n bytes is n+1", "netsim share only: the packetisation-boundary component run of DESIGN C19 is exercised through the real packetiser here"];
+            p.part(streamsim::dgram::DgramSim, 200_000, 20_000_000, "component run: two real DatagramFlows built as the connection builds them; the simulator plays the applications (send / send_bytes of sizes around the peer's limit and the varint boundaries 63/64 and 16383/16384; recv / read / read_buf), the packet assembler (remaining room around the datagram size, other frames loaded first, repeated loading into one packet) and the network (loss, delay) plus a hostile peer (frames at / over the local maximum in both encodings) and connection errors; every packet is decoded by the real FrameReader; reference = FIFO of byte vectors per direction + RFC 9221 size rule; non-trivial = a packet was lost or delayed and a datagram was read; distinct = hash of the op/result history");
+            p.assumptions = vec!["RFC 9221: max_datagram_frame_size bounds the whole frame (type, length, payload); the smallest encoding of a payload of n bytes is n+1", "an assembler offering at least payload+9 bytes of room must get the head datagram (any encoding fits); between payload+1 and payload+8 either answer is accepted", "network reordering is modelled as delay: the reader must return datagrams in arrival order"];
         }
         "C20" => {
             p.part(netsim::NetSim { mode: netsim::Mode::C20 }, 250, 30_000, "each seeded whole-stack case (handshake, transfer, loss, close at a drawn time, idle expiry, path loss) is executed six times under exporter configurations no-op / discard-all / capturing / capturing+raw / filtered / shipped LegacySeqLogger into memory; wire and application traces must be identical; every captured event must serialise with the mandatory fields, parse back equal and convert to the legacy form without panicking; non-trivial = faults fired and progress; distinct = trace hash");
@@ -190,6 +191,10 @@ fn plan(p: &mut Plan<'_>) {
         "C12" => {
             p.part(streamsim::StreamSim { mode: streamsim::Mode::C12 }, 20_000, 2_000_000, "as C01 with initial stream counts from {0,1,2,3,10,100} and both concurrency strategies; local opens never exceed the delivered limit; accept yields every peer stream once, in order; 70% of the runs end with a forged frame: stream index at/over the advertised count, STREAM or RESET_STREAM on a send-only stream, STOP_SENDING / MAX_STREAM_DATA on a receive-only stream, frames for a local stream never opened, four final-size contradictions; expected error kinds from RFC 9000");
             p.assumptions = vec!["legality of a forged frame is judged against what the target endpoint has emitted (advertised), not what was delivered"];
+        }
+        "C13" => {
+            p.part(ccsim::CcSim, 5_000, 500_000, "one real congestion controller (ArcCC: NewReno, RTT estimator, pacer, loss detection, PTO) on tokio's paused clock, ticked every 10 ms as Path::drive does; the case scripts sends in three spaces (sizes, ack-eliciting / in-flight flags, packet-number gaps), per-packet fates (deliver after a delay, drop, black hole), acknowledgement frames built from what reached the peer (gaps, range limits, stale, delayed beyond max_ack_delay, ECN-CE counts), handshake phase changes, anti-amplification flags and epoch discards on both roles; reference model = set of outstanding packets + RFC 9002 rules evaluated on the H1 snapshot after every call; drain phase without acks bounded to 120 virtual seconds; non-trivial = a fault fired and packets were acknowledged; distinct = hash of the call/result history");
+            p.assumptions = vec!["loss threshold judged with 0.2% tolerance against 9/8 of the larger of smoothed and latest RTT, at least 1 ms", "RFC 9002 7.6 duration-based persistent congestion is accepted as a legitimate second reduction", "ack-eliciting-but-not-in-flight packets are not generated (unreachable through qbase::packet)"];
         }
         other => die(&format!("no check for property {other}")),
     }
